@@ -235,6 +235,11 @@ Theorem C17_stacked_shape_is_regenerated_dim : forall ts s,
 Proof. exact stacked_shape_is_regenerated_dim. Qed.
 Print Assumptions C17_stacked_shape_is_regenerated_dim.
 
+Theorem C17_fragment_auto_order : forall img sf : bool,
+  (if auto_order_is_image_guard img then auto_order_of_image sf else default_channels_first) = (img && sf)%bool.
+Proof. exact frag_auto_order. Qed.
+Print Assumptions C17_fragment_auto_order.
+
 Theorem C17_fragment_default_order : default_channels_first = false.
 Proof. exact frag_default_order. Qed.
 Print Assumptions C17_fragment_default_order.
